@@ -110,9 +110,11 @@ def run(tier, seed, procs=16):
         sig = signature(r)
         # known root causes are recognised by CONFIGURATION (robust to sampling seeds and iteration order), everything else by scenario
         netonly = all((x.startswith("net") and x.endswith(".energy_footprint")) or x == "system.total_footprint" for x in r["diff"])
+        is_link = lambda e: "->" in e or ".jobs" in e or ".uj_steps" in e
         if r.get("shared") and r["status"] in ("stale", "edit-raised-but-fresh-build-succeeds"): sig = "D1"
+        elif r["kind"] == "grouped" and r["status"] == "stale" and any(is_link(e) for e in r["edits"]) and not all(is_link(e) for e in r["edits"]): sig = "D20"
         elif r.get("jobless") and r["status"] == "stale" and netonly: sig = "D12"
-        viol.append({"signature": sig, "what": f"C01 on topology '{r['topology']}' after edits {r['edits']}: {r['status']} "
+        viol.append({"signature": sig, "what": f"C01 on topology '{r['topology']}' after {r['kind']} edits {r['edits']}: {r['status']} "
                      f"{r['diff'][:8]} {r.get('error', '')}", "input": {"topology": r["topology"], "edits": r["edits"]}})
     return {"evaluations": len(res), "distinct_nontrivial": len(nontrivial),
             "rule": "one case = (topology, sequence of 1 or 2 edits); live system after the edits vs a system built from the edited spec; "
